@@ -114,3 +114,11 @@ pub fn prepared_from_response_body(
     prepared.set_partitioner_name(partitioner);
     Ok(prepared)
 }
+
+/// The `CachingSession` path: turn the statement into the cached `UnconfiguredPreparedStatement`
+/// and make a configured handle from it again (both crate-private), keeping config and page size.
+pub fn through_unconfigured_handle(prepared: &PreparedStatement) -> PreparedStatement {
+    prepared
+        .make_unconfigured_handle()
+        .make_configured_handle(prepared.config.clone(), prepared.get_validated_page_size())
+}
